@@ -71,6 +71,25 @@ def main():
             from vlib.monitors import LineCov
             linecov = LineCov().start()
         common.setup_repo()
+        # Logging is configuration a user chooses; no property may depend on it.  Odd shards run with the package's loggers at DEBUG
+        # and a handler that formats every record (lazily formatted arguments, guards like `if log.isEnabledFor(DEBUG)`, __repr__
+        # of packets and segments then execute); even shards keep the default (nothing enabled below WARNING).
+        debuglog = {"records": 0, "format_errors": 0}
+        if i % 2 == 1 and os.environ.get("VERIF_NO_DEBUGLOG") != "1":
+            import logging
+
+            class _Sink(logging.Handler):
+                def emit(self, record):
+                    debuglog["records"] += 1
+                    try:
+                        record.getMessage()
+                    except Exception:  # noqa - what the standard handlers do: report, never raise into the caller
+                        debuglog["format_errors"] += 1
+            logging.disable(logging.NOTSET)  # setup_repo() switches logging off altogether (the library logs every expected failure)
+            lg = logging.getLogger("pycomm3")
+            lg.setLevel(logging.DEBUG)
+            lg.addHandler(_Sink())
+            lg.propagate = False
         ctx = Ctx(pid, tier, seed, i, n)
         ctx.reach = reach
         try:
@@ -88,6 +107,9 @@ def main():
                     b_.log.violations[:] = [v_ for v_ in b_.log.violations if v_[0] != pid]
                 res.count("scenarios-died", len(_bench.DEAD_BENCHES))
             reach.stop()
+            res.count("debug-log-records-formatted", debuglog["records"])
+            if debuglog["format_errors"]:
+                res.count("debug-log-records-that-failed-to-format", debuglog["format_errors"])
             anchors = getattr(mod, "ANCHORS", None)
             if anchors:
                 rep = reach.report(anchors)
